@@ -88,7 +88,7 @@ def run(chk, tier):
     chk.trusted += ["dependency features do not change leaf encodings", "cargo feature unification"]
 
 
-# ----------------------------------------------------------------------------------- R15.4
+# ----------------------------------------------------------------------------------- R15.5
 CMP_TRAITS = ("core::cmp::PartialEq", "core::cmp::Eq", "core::cmp::PartialOrd", "core::cmp::Ord", "core::hash::Hash")
 KEYED = ("scale_info::interner::Interner", "alloc::collections::btree::map::BTreeMap", "alloc::collections::btree::set::BTreeSet",
          "std::collections::hash::map::HashMap", "std::collections::hash::set::HashSet", "hashbrown::map::HashMap", "hashbrown::set::HashSet",
@@ -156,7 +156,7 @@ def pipeline_slice(prog):
 
 
 def docs_blind_identity(chk, prog, cfg):
-    chk.rule("R15.4", "the describing pipeline (Registry registration, IntoPortable conversions, From<Registry> for PortableRegistry and what they call) never "
+    chk.rule("R15.5", "the describing pipeline (Registry registration, IntoPortable conversions, From<Registry> for PortableRegistry and what they call) never "
              "compares, orders, hashes or keys a collection by a value that contains a `docs` field: were it to, the docs feature (which empties or "
              "fills those fields) would decide which types coincide, hence their number, positions and ids")
     have = docs_bearing(prog)
@@ -179,9 +179,9 @@ def docs_blind_identity(chk, prog, cfg):
                     why = "%s over elements of type %s" % (base.split("::")[-1], prog.ty_s(gs[0]))
             if why:
                 bad += 1
-                chk.fail("R15.4", "docs-keyed:%s:%s" % (mir.strip_generics(p), mir.strip_generics(callee).split("::")[-1]), b.where(bb), why, cfg)
+                chk.fail("R15.5", "docs-keyed:%s:%s" % (mir.strip_generics(p), mir.strip_generics(callee).split("::")[-1]), b.where(bb), why, cfg)
     chk.count("pipeline_bodies[%s]" % cfg, len(members))
-    chk.expect(bad == 0 and len(members) >= 30, "R15.4", "pipeline:docs-blind", None,
+    chk.expect(bad == 0 and len(members) >= 30, "R15.5", "pipeline:docs-blind", None,
                "%d bodies in the describing pipeline, %d docs-bearing model types, %d docs-sensitive comparisons" % (len(members), len(have), bad), cfg)
 
 
